@@ -53,6 +53,12 @@ def moment_laws(chk, ctx, rng, n):
         absorbed = dt * ((0.5 / nu) * 2 / dx[0] * w[0] * out[0] + (0.5 / nu) * 2 / dx[-1] * w[-1] * out[-1])
         if not math.isclose(m2, m1 - absorbed, rel_tol=1e-9, abs_tol=1e-12 * abs(m1)):
             chk.fail('mass-law:step', 'mass after step %.12g, law mass - dt*absorbed = %.12g' % (m2, m1 - absorbed), inp)
+        # l1-stability (C01_stability_neutral): a density of arbitrary sign is not amplified in the trapezoid-weighted l1 norm
+        sg = phi * rng.choice([-1.0, 1.0], size=N)
+        so = ic.implicit_1Dx(sg.copy(), xx, nu, 0.0, h, beta, dt, use_delj_trick=int(it % 2))
+        n0 = float(np.sum(w * np.abs(sg))); n1 = float(np.sum(w * np.abs(so)))
+        if not (n1 <= n0 * (1 + 1e-12)):
+            chk.fail('stability:l1', 'one neutral step amplified the weighted l1 norm of a signed density: %.12g -> %.12g' % (n0, n1), dict(inp, signed=sg))
         # mean-frequency law (C01_mean_step): sum w x phi changes only through the absorbing term at x = 1
         f1 = float(np.sum(w * xx * inj)); f2 = float(np.sum(w * xx * out))
         fixed = dt * (0.5 / nu) * 2 / dx[-1] * w[-1] * out[-1]
